@@ -166,234 +166,12 @@ def dispatcher(ctx):
 
 
 # ------------------------------------------------------------------ importers
-def importer_traces(ctx, m, strategy, attrs, fmf=(), merged=None, real_dispatcher=None):
-    """One pass of the line loop for a colliding newcomer under `strategy`."""
-    it = Interp(ctx)
-    so = Opaque("self", "obj")
-    so.attrs.update(dict(force_merge_fields=list(fmf), verbose=False, merge_strategy=strategy, transcript_key="transcript_id", gene_key="gene_id",
-                         subfeature="exon", _autoincrements=collections.defaultdict(int), default_encoding="utf-8"))
-    F = mkfeat("F", None, attrs)
-    E = merged if merged is not None else mkfeat("E", "K", {"m": [Sym("merged", "str", True)]}, source="S_E", score="SC_E")
-
-    def s_insert(interp, pos, kw, node):
-        n = getattr(interp.trace, "_inserts", 0) + 1
-        interp.trace._inserts = n
-        if n == 1:
-            raise RaiseEx("IntegrityError", "UNIQUE constraint failed: features.id", node)
-        interp.trace.events.append(("insert", pos[0].attrs.get("id") if isinstance(pos[0], Opaque) else pos[0], node))
-        return None
-
-    def s_merge(interp, pos, kw, node):
-        f_ = pos[0]
-        st = pos[1] if len(pos) > 1 else kw.get("merge_strategy")
-        interp.trace.events.append(("dispatch", f_.name if isinstance(f_, Opaque) else f_, st, node))
-        if st == "error":
-            raise RaiseEx("ValueError", "Duplicate ID", node)
-        if st == "warning":
-            return (None, "warning")
-        if st == "replace":
-            return (f_, "replace")
-        if st == "create_unique":
-            f_.attrs["id"] = "K_1"
-            return (f_, "create_unique")
-        if st == "merge":
-            return (E, "merge")
-        raise RaiseEx("ValueError", "Invalid merge strategy", node)
-
-    def s_replace(interp, pos, kw, node):
-        interp.trace.events.append(("replace", pos[0].name if isinstance(pos[0], Opaque) else pos[0], node))
-
-    def s_json(interp, pos, kw, node):
-        o = Opaque("json", "json")
-        o.attrs["of"] = pos[0]
-        return o
-    it.summaries["create._DBCreator._insert"] = s_insert
-    if real_dispatcher is None:
-        it.summaries["create._DBCreator._do_merge"] = s_merge
-    else:
-        # the package's own dispatcher, with the stored candidates given
-        it.summaries["create._DBCreator._candidate_merges"] = lambda i, pos, kw, node: list(real_dispatcher)
-    it.summaries["create._DBCreator._id_handler"] = lambda i, pos, kw, node: "K"
-    it.summaries["create._DBCreator._replace"] = s_replace
-    it.summaries["helpers._jsonify"] = s_json
-    lines = [p for p in m.params if p != "self"][0]
-    try:
-        traces = it.run(m, {lines: [F]}, self_obj=so)
-    except Unsupported as e:
-        ctx.require(False, "%s outside the analysable subset: %s" % (m.qual, e))
-    return F, E, traces
 
 
-def _effects(ctx, t, E):
-    """(feature effects, relation rows) of a trace after the dispatch."""
-    feats, rels = [], []
-    seen_dispatch = False
-    for e in t.events:
-        if e[0] == "dispatch":
-            seen_dispatch = True
-            continue
-        if not seen_dispatch:
-            continue
-        if e[0] == "insert":
-            feats.append(("INSERT", e[1]))
-        elif e[0] == "replace":
-            feats.append(("REPLACE", e[1]))
-        elif e[0] == "execute":
-            text = e[1] if isinstance(e[1], str) else (e[1].render() if isinstance(e[1], AStr) else str(e[1]))
-            try:
-                st = S.parse(text)
-            except S.SQLError:
-                feats.append(("SQL?", " ".join(text.split())[:60]))
-                continue
-            tab = (st.table or "").lower() if hasattr(st, "table") else ""
-            if st.verb == "INSERT" and tab == "relations":
-                rows = e[2] if e[3] == "executemany" else [e[2]]
-                for r in rows if isinstance(rows, (list, tuple)) else []:
-                    vals = list(r) if isinstance(r, (list, tuple)) else [r]
-                    full = []
-                    k = 0
-                    for v in st.values:
-                        if v[0] == "param":
-                            full.append(getattr(vals[k], "name", vals[k]) if k < len(vals) else "?")
-                            k += 1
-                        else:
-                            full.append(v[1] if v[0] in ("num", "str") else S.show(v))
-                    cols = [c.lower() for c in (st.columns or ["parent", "child", "level"])]
-                    rels.append(tuple(dict(zip(cols, full)).get(c) for c in ("parent", "child", "level")))
-            elif st.verb == "UPDATE" and tab == "features":
-                cols = tuple(c.lower() for c, _v in st.sets) if isinstance(st.sets, list) else ("?",)
-                ps = list(e[2]) if isinstance(e[2], (list, tuple)) else [e[2]]
-                shown = []
-                for p in ps:
-                    if isinstance(p, Opaque) and p.kind == "json":
-                        of = p.attrs.get("of")
-                        shown.append("json(E.attributes)" if of is E.attrs.get("attributes") else "json(%r)" % (of,))
-                    else:
-                        shown.append(getattr(p, "name", p))
-                feats.append(("UPDATE", cols, S.show(st.where), tuple(shown)))
-            elif st.verb in ("INSERT", "UPDATE", "DELETE", "REPLACE"):
-                feats.append((st.verb, tab))
-    return feats, rels
 
 
-def _effects_all(ctx, t):
-    """(feature effects, relation rows) of a whole trace (dispatcher not summarised)."""
-    t2 = type("T", (), {})()
-    t2.events = [("dispatch", None, None, None)] + list(t.events)
-    return _effects(ctx, t2, mkfeat("none", None, {}))
 
 
-def importers(ctx, sch):
-    meths = populate_methods(ctx)
-    ctx.floor("R1", len(meths), 2, "importers with a collision handler")
-    p1, p2 = Sym("p1", "str", True), Sym("p2", "str", True)
-    tables = {}
-    for m in meths:
-        ctx.touch(m)
-        name = m.qual.split(".")[1]
-        gtf = "GTF" in name
-        attrs = {"transcript_id": [p1], "gene_id": [p2]} if gtf else {"Parent": [p1, p2]}
-        want_rel = (lambda child: sorted([("p1", child, 1), ("p2", child, 2), ("p2", "p1", 1)])) if gtf else (lambda child: sorted([("p1", child, 1), ("p2", child, 1)]))
-        table = {}
-        for strat in STRATEGIES:
-            F, E, traces = importer_traces(ctx, m, strat, dict(attrs), fmf=["source", "score"])
-            disp = [e for t in traces for e in t.events if e[0] == "dispatch"]
-            ok = bool(disp) and all(e[1] == "F" and e[2] == strat for e in disp)
-            ctx.ob("R1", ok, "%s: a collision is dispatched on the configured merge_strategy" % name, func=m,
-                   sig="%s: %s collision dispatched with %s" % (name, strat, sorted({(e[1], e[2]) for e in disp})))
-            effs = []
-            for t in traces:
-                fe, re_ = _effects(ctx, t, E)
-                effs.append((t.result[0] if t.result[0] == "raise" else "ok", tuple(fe), tuple(sorted(re_, key=repr))))
-            # paths differ only in data-dependent relation guards (parent != child): judge the fullest one
-            effs.sort(key=lambda x: -len(x[2]))
-            table[strat] = effs
-            res, fe, rels = effs[0]
-            fes = {e[1] for e in effs}
-            ctx.ob("R1", len(fes) == 1, "%s: the feature writes under '%s' do not depend on anything but the strategy" % (name, strat), func=m,
-                   sig="%s: %s feature effects %s" % (name, strat, "uniform" if len(fes) == 1 else sorted(fes, key=repr)), nontrivial=False)
-            if strat == "error":
-                ctx.ob("R1", res == "raise" and not fe and not rels, "%s: 'error' aborts the import, nothing is written for the newcomer" % name, func=m,
-                       sig="%s: error -> %s, %d writes" % (name, res, len(fe) + len(rels)))
-            elif strat == "warning":
-                ctx.ob("R1", not fe, "%s: 'warning' writes nothing" % name, func=m, sig="%s warning effects %s" % (name, list(fe)), nontrivial=False)
-                leak = any(e[2] for e in effs)
-                ctx.ob("R5", not leak,
-                       "%s: when a colliding newcomer is discarded ('warning': nothing is written for it) none of its Parent/transcript/gene links is inserted" % name,
-                       func=m, sig="%s: relation insert reachable on the discard path of the collision handler" % name if leak else "%s: no relation insert on the discard path" % name)
-            elif strat == "replace":
-                ctx.ob("R1", list(fe) == [("REPLACE", "F")], "%s: 'replace' overwrites the stored row with the newcomer" % name, func=m, sig="%s replace effects %s" % (name, list(fe)))
-            elif strat == "create_unique":
-                ctx.ob("R1", list(fe) == [("INSERT", "K_1")], "%s: 'create_unique' inserts the renamed newcomer" % name, func=m, sig="%s create_unique effects %s" % (name, list(fe)))
-            elif strat == "merge":
-                upd = [e for e in fe if e[0] == "UPDATE" and e[1] == ("attributes",)]
-                ok = len(upd) == 1 and upd[0][2].replace(" ", "") in ("id=?1", "id=?0") and upd[0][3] == ("json(E.attributes)", "K")
-                ctx.ob("R3", ok, "%s: after a merge the stored row's attributes become the merged attributes (bound to the merged feature's id)" % name, func=m,
-                       sig="%s merge writes %s" % (name, upd[0][1:] if upd else "no attributes UPDATE"))
-                forced = [e for e in fe if e[0] == "UPDATE" and e[1] != ("attributes",)]
-                ok = len(forced) == 1 and forced[0][1] == ("source", "score") and forced[0][3] == ("S_E", "SC_E", "K")
-                ctx.ob("R3", ok, "%s: columns named in force_merge_fields are updated to the merged values (exactly those columns, bound in the same order)" % name, func=m,
-                       sig="%s forced-column update %s" % (name, forced[0][1:] if forced else "missing"))
-                other = [e for e in fe if e[0] != "UPDATE"]
-                ctx.ob("R1", not other, "%s: 'merge' writes nothing but the two updates" % name, func=m, sig="%s merge: other effects %s" % (name, other), nontrivial=False)
-            if strat in ("replace", "create_unique", "merge"):
-                child = "K_1" if strat == "create_unique" else "K"
-                ok = sorted(rels, key=repr) == sorted(want_rel(child), key=repr)
-                ctx.ob("R5", ok, "%s: under '%s' the newcomer's links are added under its final id (no Parent link is lost or invented)" % (name, strat), func=m,
-                       sig="%s: relation rows under %s: %s" % (name, strat, sorted(rels, key=repr)), nontrivial=False)
-        # end to end with the package's own dispatcher: the newcomer agrees with an earlier '<key>_1' entry (found through the
-        # duplicates table), not with the feature stored under '<key>' itself: its links belong to '<key>_1'
-        other = mkfeat("K0", "K", {"x": [Sym("x", "str", True)]}, start=500, end=600)
-        same = mkfeat("K1", "K_1", {"y": [Sym("y", "str", True)]})
-        F, E, traces = importer_traces(ctx, m, "merge", dict(attrs), fmf=[], real_dispatcher=[other, same])
-        rows = set()
-        upd_ids = set()
-        for t in traces:
-            fe, re_ = _effects_all(ctx, t)
-            rows |= set(re_)
-            upd_ids |= {e[3][-1] for e in fe if e[0] == "UPDATE"}
-        children = {r[1] for r in rows if r[1] not in ("p1", "p2")}
-        ok = bool(rows) and children == {"K_1"} and upd_ids == {"K_1"}
-        ctx.ob("R5", ok, "%s: a newcomer merged into an earlier '<key>_n' entry has its attributes and its links recorded for that entry (not for '<key>')" % name, func=m,
-               sig="%s: merged into K_1: rows updated %s, relation children %s" % (name, sorted(upd_ids), sorted(children)))
-        # merge without forced fields: no forced-column statement
-        F, E, traces = importer_traces(ctx, m, "merge", dict(attrs), fmf=[])
-        n_forced = 0
-        for t in traces:
-            fe, _r = _effects(ctx, t, E)
-            n_forced += len([e for e in fe if e[0] == "UPDATE" and e[1] != ("attributes",)]) + len([e for e in fe if e[0] == "SQL?"])
-        ctx.ob("R3", n_forced == 0, "%s: without force_merge_fields only the attributes are rewritten" % name, func=m,
-               sig="%s merge without forced fields: %d extra statement(s)" % (name, n_forced), nontrivial=False)
-        tables[m.qual] = {k: sorted({e[1] for e in v}, key=repr) for k, v in table.items()}
-    quals = sorted(tables)
-    if len(quals) >= 2:
-        a, b = tables[quals[0]], tables[quals[1]]
-        diff = [k for k in set(a) | set(b) if a.get(k) != b.get(k)]
-        ctx.ob("R1", not diff, "the GFF and the GTF importer resolve collisions alike (equal decision tables: strategy -> feature effects)",
-               func=ctx.proj.funcs[quals[1]], sig="importer collision tables agree" if not diff else "importer collision tables differ on %s" % sorted(map(str, diff)),
-               detail=None if not diff else "%s: %s | %s: %s" % (quals[0], {k: a.get(k) for k in diff}, quals[1], {k: b.get(k) for k in diff}))
-    # replace: the replaced row's links must be dropped (who deletes)
-    for m in meths:
-        name = m.qual.split(".")[1]
-        pool = closure(ctx, m) + closure(ctx, ctx.proj.method(m.cls, "_update_relations"))
-        dels = []
-        for s in execute_sites(ctx, pool):
-            for st in (s.stmts or []):
-                if st.verb == "DELETE" and st.table.lower() == "relations" and st.where is not None and "child" in S.show(st.where).lower():
-                    dels.append(s)
-        ctx.ob("R5", bool(dels),
-               "%s: when 'replace' overwrites a stored feature, the relations that named the replaced feature as child are removed before the "
-               "newcomer's links are added (inline, in _replace, or in one sweep)" % name, func=m,
-               sig="%s: replace keeps the replaced row's relations (no DELETE FROM relations ... child)" % name if not dels else
-               "%s: replaced row's relations are deleted" % name,
-               detail=None if dels else "children(old parent) still lists the key after its feature was replaced by one with a different Parent")
-    # _replace really updates the row with that id
-    rp = require_func(ctx, "create._DBCreator._replace")
-    ss = [s for s in execute_sites(ctx, closure(ctx, rp)) if enclosing(s.call, ast.ExceptHandler) is None and s.stmts]
-    upd = ctx.folder.const("constants", "_UPDATE")
-    ok = len(ss) >= 1 and all(st.verb == "UPDATE" and st.table.lower() == "features" and st.where is not None and "id" in S.show(st.where).lower() for s in ss for st in s.stmts) \
-        and any(" ".join(s.sql.text.split()) == " ".join(upd.split()) for s in ss)
-    ctx.ob("R1", ok, "_replace issues the full-row UPDATE ... WHERE id = ?", func=rp, sig="_replace executes %s" % (norm(ss[0].call.args[0]) if ss else None))
 
 
 # ------------------------------------------------------------ structural rest
